@@ -2,7 +2,6 @@
 
 from __future__ import annotations
 
-from functools import lru_cache
 from ipaddress import NetmaskValueError, IPv4Address, IPv4Network
 from itertools import product
 
@@ -39,6 +38,7 @@ class Wildcard(Base):
         :raises NetmaskValueError: If non-contiguous wildcard increase max_ncwb.
         """
         self.ipnet: OIpNet = None  # IPv4Network of contiguous wildcard
+        self._ipnets: LIpNet = []  # memo of self.ipnets(), reset when line is changed
         self._ncwb: LInt = []  # non-contiguous wildcard bits
         self._prefixlen: int = 0  # Prefix length of contiguous wildcard
         super().__init__(**kwargs)  # platform, note
@@ -78,6 +78,7 @@ class Wildcard(Base):
         ncwb, prefixlen = self._create_ncwb()
         self._ncwb = ncwb
         self._prefixlen = prefixlen
+        self._ipnets = []
 
     @property
     def max_ncwb(self) -> int:
@@ -180,7 +181,6 @@ class Wildcard(Base):
             data["uuid"] = self.uuid
         return data
 
-    @lru_cache
     def ipnets(self) -> LIpNet:
         """List of IPv4Network that match this wildcard.
 
@@ -190,6 +190,8 @@ class Wildcard(Base):
             wildcard.ipnets() -> [IPv4Network("10.0.0.0/30"),
                                   IPv4Network("10.0.1.0/30")]
         """
+        if self._ipnets:
+            return list(self._ipnets)
         ipnets: LIpNet = []
         prefix_i = int(self._prefix)
         repeat = len(self._ncwb)
@@ -203,7 +205,8 @@ class Wildcard(Base):
                     prefix_i_ &= ~mask
             ipnet = IPv4Network((prefix_i_, self._prefixlen))
             ipnets.append(ipnet)
-        return ipnets
+        self._ipnets = ipnets
+        return list(ipnets)
 
     # =========================== helper =============================
 
